@@ -11,6 +11,7 @@ from ..env import gfapy, GfapyError
 from ..runner import Part, Violation
 
 ID = "C01"
+ATHERIS = ['doc']  # parts also driven by libFuzzer in the thorough tier (vf/runner.py: all_parts)
 RULE = ("valid GFA1/GFA2 documents built constructively (all record types, all 7 tag datatypes, "
         "placeholders, both complement forms of a link, repeated header tags) x vlevel 0-3 x "
         "explicit/auto version x entry point {str, str+newline, list, file LF, file CRLF}; "
